@@ -1,12 +1,512 @@
-(* C17 — lemmas. *)
-From Coq Require Import ZArith List Bool Lia.
-From FV Require Import C17.Model.
+(* C17 — lemmas.  Everything holds for an arbitrary hash function (Section variable). *)
+From Coq Require Import ZArith List Bool Lia Sorting.Sorted.
+From FV Require Import Generated.Consts C17.Model.
 Import ListNotations.
 Open Scope Z_scope.
+
+(* ---------- names ---------- *)
+
+Lemma name_eqb_eq a b : name_eqb a b = true <-> a = b.
+Proof.
+  revert b. induction a as [|x a IH]; intros [|y b]; cbn; split; intros H;
+    try reflexivity; try discriminate.
+  - apply andb_true_iff in H as [H1 H2]. apply Z.eqb_eq in H1. apply IH in H2. congruence.
+  - inversion H; subst. apply andb_true_iff. split; [apply Z.eqb_refl | apply IH; reflexivity].
+Qed.
+
+Lemma name_eqb_refl a : name_eqb a a = true.
+Proof. apply name_eqb_eq. reflexivity. Qed.
+
+Lemma name_eqb_neq a b : name_eqb a b = false <-> a <> b.
+Proof.
+  split.
+  - intros H E. apply name_eqb_eq in E. congruence.
+  - intros H. destruct (name_eqb a b) eqn:E; [|reflexivity]. apply name_eqb_eq in E. contradiction.
+Qed.
+
+Lemma mem_name_In n l : mem_name n l = true <-> In n l.
+Proof.
+  induction l as [|m l IH]; cbn.
+  - split; [discriminate | tauto].
+  - rewrite orb_true_iff, IH, name_eqb_eq. tauto.
+Qed.
+
+(* ---------- "the first point > h, else the smallest" ---------- *)
+
+Definition gt (h : Z) (e : Z * name) : bool := h <? fst e.
+
+Definition succ_entry (h : Z) (c : list (Z * name)) : option (Z * name) :=
+  match find (gt h) c with
+  | Some e => Some e
+  | None => hd_error c
+  end.
+
+Definition owner (h : Z) (c : list (Z * name)) : option name := option_map snd (succ_entry h c).
+
+Definition sorted_c (c : list (Z * name)) : Prop :=
+  StronglySorted (fun a b => fst a < fst b) c.
+
+Lemma sorted_keys c : sorted_c c -> StronglySorted Z.lt (map fst c).
+Proof.
+  induction 1 as [|e c Hs IH Hall]; cbn; constructor; [assumption|].
+  rewrite Forall_forall in *. intros k Hk. apply in_map_iff in Hk as [e' [<- He']]. auto.
+Qed.
+
+(* sorted lists, by index *)
+Lemma sorted_nth_le l : StronglySorted Z.lt l ->
+  forall i j, (i <= j < length l)%nat -> nth i l 0 <= nth j l 0.
+Proof.
+  induction 1 as [|x l Hs IH Hall]; intros i j Hij; cbn in Hij; [lia|].
+  destruct j as [|j].
+  - assert (i = O) by lia. subst. lia.
+  - destruct i as [|i].
+    + cbn. rewrite Forall_forall in Hall.
+      assert (In (nth j l 0) l) by (apply nth_In; lia). specialize (Hall _ H). lia.
+    + cbn. apply IH. lia.
+Qed.
+
+Lemma sorted_nth_leZ l : StronglySorted Z.lt l ->
+  forall i j, 0 <= i <= j -> j < Z.of_nat (length l) ->
+  nth (Z.to_nat i) l 0 <= nth (Z.to_nat j) l 0.
+Proof. intros Hs i j Hij Hj. apply sorted_nth_le; [assumption | lia]. Qed.
+
+Lemma bsearch_spec sh h : StronglySorted Z.lt sh ->
+  forall fuel lo hi,
+  0 <= lo <= hi -> hi <= Z.of_nat (length sh) -> hi - lo <= Z.of_nat fuel ->
+  (forall i, 0 <= i < lo -> nth (Z.to_nat i) sh 0 <= h) ->
+  (forall i, hi <= i < Z.of_nat (length sh) -> h < nth (Z.to_nat i) sh 0) ->
+  let r := bsearch fuel sh h lo hi in
+  lo <= r <= hi /\
+  (forall i, 0 <= i < r -> nth (Z.to_nat i) sh 0 <= h) /\
+  (forall i, r <= i < Z.of_nat (length sh) -> h < nth (Z.to_nat i) sh 0).
+Proof.
+  intros Hs. induction fuel as [|f IH]; intros lo hi Hlo Hhi Hfuel Hlow Hhigh; cbn [bsearch].
+  - assert (lo = hi) by lia. subst. repeat split; try lia; assumption.
+  - destruct (lo <? hi) eqn:Hlt.
+    + apply Z.ltb_lt in Hlt.
+      set (mid := lo + (hi - lo) / 2).
+      assert (Hmid : lo <= mid < hi).
+      { unfold mid. assert (0 <= (hi - lo) / 2 < hi - lo) by (split; [apply Z.div_pos; lia | apply Z.div_lt_upper_bound; lia]). lia. }
+      destruct (nth (Z.to_nat mid) sh 0 <=? h) eqn:Hc.
+      * apply Z.leb_le in Hc.
+        specialize (IH (mid + 1) hi). cbv zeta in IH.
+        destruct IH as [H1 [H2 H3]]; try lia.
+        { intros i Hi. assert (nth (Z.to_nat i) sh 0 <= nth (Z.to_nat mid) sh 0)
+            by (apply sorted_nth_leZ; [assumption | lia | lia]). lia. }
+        { assumption. }
+        repeat split; try lia; assumption.
+      * apply Z.leb_gt in Hc.
+        specialize (IH lo mid). cbv zeta in IH.
+        destruct IH as [H1 [H2 H3]]; try lia.
+        { assumption. }
+        { intros i Hi. assert (nth (Z.to_nat mid) sh 0 <= nth (Z.to_nat i) sh 0)
+            by (apply sorted_nth_leZ; [assumption | lia | lia]). lia. }
+        repeat split; try lia; assumption.
+    + apply Z.ltb_ge in Hlt. assert (lo = hi) by lia. subst. repeat split; try lia; assumption.
+Qed.
+
+Lemma find_by_index {A} (f : A -> bool) (d : A) : forall l r,
+  (r <= length l)%nat ->
+  (forall i, (i < r)%nat -> f (nth i l d) = false) ->
+  ((r < length l)%nat -> f (nth r l d) = true) ->
+  find f l = nth_error l r.
+Proof.
+  induction l as [|x l IH]; intros r Hr Hlow Hat.
+  - cbn in Hr. assert (r = O) by lia. subst. reflexivity.
+  - destruct r as [|r].
+    + cbn. cbn in Hat. rewrite Hat by (cbn; lia). reflexivity.
+    + cbn. pose proof (Hlow O ltac:(lia)) as H0. cbn in H0. rewrite H0. apply IH.
+      * cbn in Hr. lia.
+      * intros i Hi. apply (Hlow (S i)). lia.
+      * intros Hlt. apply Hat. cbn. lia.
+Qed.
+
+(* the binary search returns the index of the first point > h, or 0 if there is none *)
+Lemma search_spec sh h : StronglySorted Z.lt sh -> sh <> [] ->
+  nth (Z.to_nat (search sh h)) sh 0 =
+  match find (fun x => h <? x) sh with Some x => x | None => hd 0 sh end.
+Proof.
+  intros Hs Hne. unfold search.
+  set (n := Z.of_nat (length sh)).
+  pose proof (bsearch_spec sh h Hs (S (length sh)) 0 n) as B. cbv zeta in B.
+  destruct B as [H1 [H2 H3]]; try (subst n; lia).
+  set (r := bsearch (S (length sh)) sh h 0 n) in *.
+  assert (Hfind : find (fun x => h <? x) sh = nth_error sh (Z.to_nat r)).
+  { apply (find_by_index _ 0).
+    - subst n. lia.
+    - intros i Hi. apply Z.ltb_ge. replace i with (Z.to_nat (Z.of_nat i)) by lia. apply H2. lia.
+    - intros Hlt. apply Z.ltb_lt. replace (Z.to_nat r) with (Z.to_nat (Z.of_nat (Z.to_nat r))) by lia.
+      apply H3. subst n. lia. }
+  rewrite Hfind.
+  destruct (r >=? n) eqn:Hge.
+  - assert (r = n) by lia.
+    assert (nth_error sh (Z.to_nat r) = None) by (apply nth_error_None; subst n; lia).
+    rewrite H0. destruct sh; [contradiction | reflexivity].
+  - assert (Z.to_nat r < length sh)%nat by (subst n; lia).
+    rewrite (nth_error_nth' sh 0 H). reflexivity.
+Qed.
+
+Lemma find_map_fst (f : Z -> bool) (c : list (Z * name)) :
+  find f (map fst c) = option_map fst (find (fun e => f (fst e)) c).
+Proof.
+  induction c as [|e c IH]; cbn; [reflexivity|].
+  destruct (f (fst e)); [reflexivity | assumption].
+Qed.
+
+Lemma circle_get_in c : sorted_c c -> forall p n, In (p, n) c -> circle_get p c = Some n.
+Proof.
+  induction 1 as [|[q m] c Hs IH Hall]; intros p n Hin; cbn in *; [contradiction|].
+  destruct Hin as [E|Hin].
+  - inversion E; subst. rewrite Z.eqb_refl. reflexivity.
+  - rewrite Forall_forall in Hall. specialize (Hall _ Hin). cbn in Hall.
+    destruct (p =? q) eqn:E; [apply Z.eqb_eq in E; lia|]. apply IH; assumption.
+Qed.
+
+Lemma succ_entry_in h c e : succ_entry h c = Some e -> In e c.
+Proof.
+  unfold succ_entry. destruct (find (gt h) c) eqn:F.
+  - intros E; inversion E; subst. apply find_some in F. tauto.
+  - destruct c; cbn; [discriminate|]. intros E; inversion E. auto.
+Qed.
+
+Lemma succ_entry_nonempty h c : c <> [] -> exists e, succ_entry h c = Some e.
+Proof.
+  intros Hne. unfold succ_entry. destruct (find (gt h) c); [eauto|].
+  destruct c; [contradiction|]. cbn. eauto.
+Qed.
 
 Section Proofs.
   Variable hash : list Z -> Z.
 
-  Lemma readd_noop n s : mem_name n (nodes s) = true -> add_node hash n s = s.
-  Proof. intros H. unfold add_node. rewrite H. reflexivity. Qed.
+  (* GetNodeBy = owner of the successor point *)
+  Lemma get_node_at_spec h s : sorted_c (circle s) -> get_node_at h s = owner h (circle s).
+  Proof.
+    intros Hs. unfold get_node_at, sorted_hash, owner.
+    remember (map fst (circle s)) as sh eqn:Esh.
+    destruct sh as [|k ks].
+    { destruct (circle s); [reflexivity | discriminate]. }
+    assert (Hne : circle s <> []) by (intros E; rewrite E in Esh; discriminate).
+    assert (Hne' : map fst (circle s) <> []) by (rewrite <- Esh; discriminate).
+    rewrite Esh.
+    rewrite (search_spec _ h (sorted_keys _ Hs) Hne').
+    destruct (succ_entry_nonempty h _ Hne) as [e He]. rewrite He. cbn.
+    assert (Hkey : match find (fun x => h <? x) (map fst (circle s)) with Some x => x | None => hd 0 (map fst (circle s)) end = fst e).
+    { rewrite find_map_fst. unfold succ_entry, gt in He.
+      destruct (find (fun e => h <? fst e) (circle s)).
+      - inversion He; subst. reflexivity.
+      - destruct (circle s); cbn in *; [discriminate|]. inversion He; subst. reflexivity. }
+    rewrite Hkey.
+    apply succ_entry_in in He. destruct e as [p n]. cbn.
+    rewrite (circle_get_in _ Hs p n He). reflexivity.
+  Qed.
+
+  (* ---------- order is preserved ---------- *)
+
+  Lemma circle_add_fst p n c e : In e (circle_add p n c) -> e = (p, n) \/ In e c.
+  Proof.
+    induction c as [|[q m] c IH]; cbn.
+    - intros [E|[]]; auto.
+    - destruct (p <? q); [cbn; intuition (subst; auto)|]. destruct (p =? q); [cbn; intuition (subst; auto)|].
+      cbn. intros [E|H]; [auto|]. apply IH in H. tauto.
+  Qed.
+
+  Lemma circle_add_sorted p n c : sorted_c c -> sorted_c (circle_add p n c).
+  Proof.
+    induction 1 as [|[q m] c Hs IH Hall]; cbn.
+    - constructor; constructor.
+    - destruct (p <? q) eqn:E1.
+      + apply Z.ltb_lt in E1. constructor; [constructor; assumption|].
+        constructor; [cbn; assumption|]. rewrite Forall_forall in *. intros e He.
+        specialize (Hall _ He). cbn in *. lia.
+      + destruct (p =? q) eqn:E2; [constructor; assumption|].
+        apply Z.ltb_ge in E1. apply Z.eqb_neq in E2.
+        constructor; [assumption|]. rewrite Forall_forall in *. intros e He.
+        apply circle_add_fst in He as [->|He]; [cbn; lia | auto].
+  Qed.
+
+  Lemma filter_sorted (f : Z * name -> bool) c : sorted_c c -> sorted_c (filter f c).
+  Proof.
+    induction 1 as [|e c Hs IH Hall]; cbn; [constructor|].
+    destruct (f e); [|assumption]. constructor; [assumption|].
+    rewrite Forall_forall in *. intros e' He'. apply filter_In in He'. apply Hall. tauto.
+  Qed.
+
+  Lemma fold_add_sorted n pts c : sorted_c c ->
+    sorted_c (fold_left (fun c p => circle_add p n c) pts c).
+  Proof. revert c. induction pts as [|p pts IH]; cbn; intros c Hs; [assumption|]. apply IH, circle_add_sorted, Hs. Qed.
+
+  Lemma fold_del_sorted n pts c : sorted_c c ->
+    sorted_c (fold_left (fun c p => circle_del p n c) pts c).
+  Proof. revert c. induction pts as [|p pts IH]; cbn; intros c Hs; [assumption|]. apply IH, filter_sorted, Hs. Qed.
+
+  (* ---------- adding points moves a key only to the new owner ---------- *)
+
+  Lemma circle_add_split p n c :
+    circle_add p n c = c \/ exists l1 l2, c = l1 ++ l2 /\ circle_add p n c = l1 ++ (p, n) :: l2.
+  Proof.
+    induction c as [|[q m] c IH]; cbn.
+    - right. exists [], []. auto.
+    - destruct (p <? q); [right; exists [], ((q, m) :: c); auto|].
+      destruct (p =? q); [left; reflexivity|].
+      destruct IH as [->|[l1 [l2 [E1 E2]]]]; [left; reflexivity|].
+      right. exists ((q, m) :: l1), l2. cbn. rewrite E2, <- E1. auto.
+  Qed.
+
+  Lemma succ_entry_insert h l1 e l2 :
+    succ_entry h (l1 ++ e :: l2) = succ_entry h (l1 ++ l2) \/ succ_entry h (l1 ++ e :: l2) = Some e.
+  Proof.
+    unfold succ_entry. induction l1 as [|x l1 IH]; cbn.
+    - destruct (gt h e); [right; reflexivity|].
+      destruct (find (gt h) l2) eqn:F; [left; reflexivity|]. right. reflexivity.
+    - destruct (gt h x); [left; reflexivity|].
+      destruct (find (gt h) (l1 ++ e :: l2)) eqn:F1; destruct (find (gt h) (l1 ++ l2)) eqn:F2.
+      + destruct IH as [IH|IH]; [left|right]; assumption.
+      + destruct IH as [IH|IH]; [|right; assumption].
+        (* found after insertion, nothing before: the found one is e *)
+        clear IH. right. f_equal.
+        revert F1 F2. clear. induction l1 as [|y l1 IH]; cbn.
+        * destruct (gt h e); [congruence|]. intros F1 F2. congruence.
+        * destruct (gt h y); [congruence|]. assumption.
+      + exfalso. revert F1 F2. clear. induction l1 as [|y l1 IH]; cbn.
+        * destruct (gt h e); [discriminate|]. congruence.
+        * destruct (gt h y); [discriminate|]. assumption.
+      + left. reflexivity.
+  Qed.
+
+  Lemma owner_circle_add h p n c :
+    owner h (circle_add p n c) = owner h c \/ owner h (circle_add p n c) = Some n.
+  Proof.
+    unfold owner. destruct (circle_add_split p n c) as [->|[l1 [l2 [E1 E2]]]]; [left; reflexivity|].
+    rewrite E2, E1. destruct (succ_entry_insert h l1 (p, n) l2) as [->| ->]; [left | right]; reflexivity.
+  Qed.
+
+  Lemma owner_fold_add h n pts c :
+    owner h (fold_left (fun c p => circle_add p n c) pts c) = owner h c \/
+    owner h (fold_left (fun c p => circle_add p n c) pts c) = Some n.
+  Proof.
+    revert c. induction pts as [|p pts IH]; cbn; intros c; [left; reflexivity|].
+    destruct (IH (circle_add p n c)) as [E|E]; [|right; assumption].
+    rewrite E. apply owner_circle_add.
+  Qed.
+
+  (* ---------- deleting points of x leaves the keys of the others alone ---------- *)
+
+  Lemma succ_entry_filter h (f : Z * name -> bool) c e :
+    succ_entry h c = Some e -> f e = true -> succ_entry h (filter f c) = Some e.
+  Proof.
+    unfold succ_entry. destruct (find (gt h) c) eqn:F.
+    - intros E Hf. inversion E; subst. clear E.
+      assert (find (gt h) (filter f c) = Some e).
+      { revert F. induction c as [|x c IH]; cbn; [discriminate|].
+        destruct (gt h x) eqn:G.
+        - intros E; inversion E; subst. rewrite Hf. cbn. rewrite G. reflexivity.
+        - intros F. destruct (f x); cbn; [rewrite G|]; apply IH; assumption. }
+      rewrite H. reflexivity.
+    - intros E Hf.
+      assert (find (gt h) (filter f c) = None).
+      { revert F. clear. induction c as [|x c IH]; cbn; [reflexivity|].
+        destruct (gt h x) eqn:G; [discriminate|]. intros F.
+        destruct (f x); cbn; [rewrite G|]; apply IH; assumption. }
+      rewrite H. destruct c as [|x c]; cbn in *; [discriminate|]. inversion E; subst.
+      rewrite Hf. reflexivity.
+  Qed.
+
+  Lemma owner_fold_del h x pts c n :
+    owner h c = Some n -> n <> x ->
+    owner h (fold_left (fun c p => circle_del p x c) pts c) = Some n.
+  Proof.
+    revert c. induction pts as [|p pts IH]; cbn; intros c Ho Hne; [assumption|].
+    apply IH; [|assumption]. unfold owner in *.
+    destruct (succ_entry h c) as [e|] eqn:E; [|discriminate]. cbn in Ho. inversion Ho; subst.
+    unfold circle_del. rewrite (succ_entry_filter h _ c e E); [reflexivity|].
+    unfold keeps. apply name_eqb_neq in Hne. rewrite Hne, andb_false_r. reflexivity.
+  Qed.
+
+  (* ---------- the invariant of every reachable ring ---------- *)
+
+  Definition inv (s : ring) : Prop :=
+    sorted_c (circle s) /\
+    forall p m, In (p, m) (circle s) -> In m (nodes s) /\ In p (points hash m).
+
+  Lemma inv_empty : inv empty.
+  Proof. split; [constructor | intros p m []]. Qed.
+
+  Lemma fold_add_in n pts c e :
+    In e (fold_left (fun c p => circle_add p n c) pts c) -> In e c \/ (snd e = n /\ In (fst e) pts).
+  Proof.
+    revert c. induction pts as [|p pts IH]; cbn; intros c H; [auto|].
+    apply IH in H as [H|[H1 H2]]; [|auto].
+    apply circle_add_fst in H as [->|H]; cbn; auto.
+  Qed.
+
+  Lemma fold_del_in x pts c e :
+    In e (fold_left (fun c p => circle_del p x c) pts c) ->
+    In e c /\ ~ (snd e = x /\ In (fst e) pts).
+  Proof.
+    revert c. induction pts as [|p pts IH]; cbn; intros c H; [tauto|].
+    apply IH in H as [H Hn]. unfold circle_del in H. apply filter_In in H as [H Hk].
+    split; [assumption|]. intros [E [E'|E']]; [|tauto].
+    unfold keeps in Hk. subst. rewrite Z.eqb_refl, name_eqb_refl in Hk. discriminate.
+  Qed.
+
+  Lemma inv_add n s : inv s -> inv (add_node hash n s).
+  Proof.
+    intros [Hs Ho]. unfold add_node. destruct (mem_name n (nodes s)) eqn:M; [split; assumption|].
+    split; cbn.
+    - apply fold_add_sorted, Hs.
+    - intros p m Hin. apply fold_add_in in Hin as [Hin|[E Hin]]; cbn in *.
+      + destruct (Ho _ _ Hin). auto.
+      + subst. auto.
+  Qed.
+
+  Lemma inv_remove x s : inv s -> inv (remove_node hash x s).
+  Proof.
+    intros [Hs Ho]. unfold remove_node. split; cbn.
+    - apply fold_del_sorted, Hs.
+    - intros p m Hin. apply fold_del_in in Hin as [Hin Hn]. cbn in Hn.
+      destruct (Ho _ _ Hin) as [H1 H2]. split; [|assumption].
+      apply filter_In. split; [assumption|].
+      destruct (name_eqb m x) eqn:E; [|reflexivity].
+      apply name_eqb_eq in E. subst. tauto.
+  Qed.
+
+  Lemma inv_step s o : inv s -> inv (step hash s o).
+  Proof. destruct o; cbn; [apply inv_add | apply inv_remove]. Qed.
+
+  Lemma inv_run_from ops s : inv s -> inv (fold_left (step hash) ops s).
+  Proof. revert s. induction ops as [|o ops IH]; cbn; intros s H; [assumption|]. apply IH, inv_step, H. Qed.
+
+  Lemma inv_run ops : inv (run hash ops).
+  Proof. apply inv_run_from, inv_empty. Qed.
+
+  (* ---------- the four sentences ---------- *)
+
+  (* a lookup on a ring with at least one point returns a current member *)
+  Lemma member s key : inv s -> circle s <> [] ->
+    exists n, get_node_by hash key s = Some n /\ In n (nodes s).
+  Proof.
+    intros [Hs Ho] Hne. unfold get_node_by. rewrite get_node_at_spec by assumption.
+    destruct (succ_entry_nonempty (hash key) _ Hne) as [[p n] He].
+    exists n. unfold owner. rewrite He. split; [reflexivity|].
+    apply succ_entry_in in He. apply (Ho _ _ He).
+  Qed.
+
+  (* an operation that leaves the set of members as it is leaves the whole ring as it is *)
+  Lemma filter_id {A} (f : A -> bool) l : (forall x, In x l -> f x = true) -> filter f l = l.
+  Proof.
+    induction l as [|x l IH]; cbn; intros H; [reflexivity|].
+    rewrite (H x) by auto. f_equal. apply IH. auto.
+  Qed.
+
+  Lemma fold_del_id x pts c : (forall e, In e c -> snd e <> x) ->
+    fold_left (fun c p => circle_del p x c) pts c = c.
+  Proof.
+    intros H. induction pts as [|p pts IH]; cbn; [reflexivity|].
+    unfold circle_del at 2. rewrite filter_id; [assumption|].
+    intros e He. unfold keeps. apply H in He. apply name_eqb_neq in He. rewrite He, andb_false_r. reflexivity.
+  Qed.
+
+  Lemma remove_nonmember x s : inv s -> ~ In x (nodes s) -> remove_node hash x s = s.
+  Proof.
+    intros [Hs Ho] Hx. unfold remove_node. destruct s as [c ns]; cbn in *. f_equal.
+    - apply fold_del_id. intros [p m] He E. cbn in E. subst. apply Ho in He. tauto.
+    - apply filter_id. intros m Hm. destruct (name_eqb m x) eqn:E; [|reflexivity].
+      apply name_eqb_eq in E. subst. contradiction.
+  Qed.
+
+  Lemma stable s o : inv s ->
+    (forall m, In m (nodes (step hash s o)) <-> In m (nodes s)) -> step hash s o = s.
+  Proof.
+    intros Hi Hsame. destruct o as [n|n]; cbn in *.
+    - unfold add_node in *. destruct (mem_name n (nodes s)) eqn:M; [reflexivity|].
+      cbn in Hsame. assert (In n (nodes s)) by (apply Hsame; auto).
+      apply mem_name_In in H. congruence.
+    - apply remove_nonmember; [assumption|]. intros Hin.
+      apply Hsame in Hin. cbn in Hin. apply filter_In in Hin as [_ Hin].
+      rewrite name_eqb_refl in Hin. discriminate.
+  Qed.
+
+  Lemma add_moves_only_to_new s x key n' : inv s ->
+    get_node_by hash key (add_node hash x s) = Some n' ->
+    get_node_by hash key s <> Some n' -> n' = x.
+  Proof.
+    intros Hi. pose proof (inv_add x s Hi) as Hi'. destruct Hi as [Hs _]. destruct Hi' as [Hs' _].
+    unfold get_node_by. rewrite !get_node_at_spec by assumption.
+    unfold add_node. destruct (mem_name x (nodes s)); [congruence|]. cbn [circle].
+    destruct (owner_fold_add (hash key) x (points hash x) (circle s)) as [E|E]; rewrite E; congruence.
+  Qed.
+
+  Lemma remove_moves_only_own s x key n : inv s ->
+    get_node_by hash key s = Some n -> n <> x ->
+    get_node_by hash key (remove_node hash x s) = Some n.
+  Proof.
+    intros Hi. pose proof (inv_remove x s Hi) as Hi'. destruct Hi as [Hs _]. destruct Hi' as [Hs' _].
+    unfold get_node_by. rewrite !get_node_at_spec by assumption. cbn [remove_node circle].
+    apply owner_fold_del.
+  Qed.
+
+  (* after a removal the leaving member owns nothing any more *)
+  Lemma removed_owns_nothing s x key : inv s -> get_node_by hash key (remove_node hash x s) <> Some x.
+  Proof.
+    intros Hi. pose proof (inv_remove x s Hi) as Hi'.
+    destruct (circle (remove_node hash x s)) eqn:Ec.
+    - unfold get_node_by, get_node_at, sorted_hash. rewrite Ec. discriminate.
+    - destruct (member _ key Hi') as [n [E Hin]]; [rewrite Ec; discriminate|].
+      rewrite E. intros E'. inversion E'; subst. cbn in Hin. apply filter_In in Hin as [_ Hin].
+      rewrite name_eqb_refl in Hin. discriminate.
+  Qed.
+
+  (* the sorted point list the binary search runs on *)
+  Lemma sorted_hash_sorted s : inv s -> StronglySorted Z.lt (sorted_hash s).
+  Proof. intros [Hs _]. apply sorted_keys, Hs. Qed.
 End Proofs.
+
+(* ---------- the member set follows the history ---------- *)
+Section Members.
+  Variable hash : list Z -> Z.
+
+  Lemma nodes_add n x s : In n (nodes (add_node hash x s)) <-> n = x \/ In n (nodes s).
+  Proof.
+    unfold add_node. destruct (mem_name x (nodes s)) eqn:M; cbn.
+    - apply mem_name_In in M. split; [tauto|]. intros [->|H]; assumption.
+    - split; intros [H|H]; auto.
+  Qed.
+
+  Lemma nodes_remove n x s : In n (nodes (remove_node hash x s)) <-> In n (nodes s) /\ n <> x.
+  Proof.
+    cbn. rewrite filter_In. destruct (name_eqb n x) eqn:E; cbn.
+    - apply name_eqb_eq in E. split; [intros [_ H]; discriminate | tauto].
+    - apply name_eqb_neq in E. tauto.
+  Qed.
+
+  Lemma members_spec ops n :
+    In n (nodes (run hash ops)) <->
+    exists before after, ops = before ++ Add n :: after /\ ~ In (Remove n) after.
+  Proof.
+    induction ops as [|o ops IH] using rev_ind.
+    - cbn. split; [tauto|]. intros [b [a [E _]]]. destruct b; discriminate.
+    - unfold run in *. rewrite fold_left_app. cbn [fold_left].
+      destruct o as [x|x]; cbn [step].
+      + rewrite nodes_add, IH. split.
+        * intros [->|[b [a [E Hn]]]].
+          -- exists ops, []. split; [reflexivity | tauto].
+          -- exists b, (a ++ [Add x]). split; [rewrite E, <- app_assoc; reflexivity|].
+             rewrite in_app_iff. intros [H|[H|[]]]; [tauto | discriminate].
+        * intros [b [a [E Hn]]].
+          destruct a as [|o a] using rev_ind.
+          -- apply app_inj_tail in E as [_ E]. inversion E. auto.
+          -- clear IHa. rewrite app_comm_cons, app_assoc in E. apply app_inj_tail in E as [E _].
+             right. exists b, a. split; [assumption|]. intros H. apply Hn. apply in_app_iff. auto.
+      + rewrite nodes_remove, IH. split.
+        * intros [[b [a [E Hn]]] Hne].
+          exists b, (a ++ [Remove x]). split; [rewrite E, <- app_assoc; reflexivity|].
+          rewrite in_app_iff. intros [H|[H|[]]]; [tauto | inversion H; congruence].
+        * intros [b [a [E Hn]]].
+          destruct a as [|o a] using rev_ind.
+          -- apply app_inj_tail in E as [_ E]. discriminate.
+          -- clear IHa. rewrite app_comm_cons, app_assoc in E. apply app_inj_tail in E as [E E'].
+             subst o. split.
+             ++ exists b, a. split; [assumption|]. intros H. apply Hn. apply in_app_iff. auto.
+             ++ intros ->. apply Hn. apply in_app_iff. right. left. reflexivity.
+  Qed.
+End Members.
